@@ -85,10 +85,33 @@ func c13Exec(run *ev.Run, c ev.Case) {
 	case "udp":
 		var p c13P
 		c.Decode(&p)
-		for try := 0; try < 3; try++ {
-			if verdict := c13UDP(run, p, c); verdict != "inconclusive" {
+		// A wall-clock overshoot only counts if it reproduces: a call that ignores its
+		// context overshoots every time, a scheduling stall on a loaded machine does not.
+		overshoots, inconclusive := 0, 0
+		var last func()
+		for try := 0; try < 5 && inconclusive < 3; try++ {
+			verdict, report := c13UDP(run, p, c)
+			switch verdict {
+			case "inconclusive":
+				inconclusive++
+				continue
+			case "overshoot":
+				overshoots++
+				last = report
+				if overshoots < 3 {
+					continue
+				}
+				last()
 				return
 			}
+			if overshoots > 0 {
+				run.Observe("overshoot-not-reproduced", overshoots)
+			}
+			return
+		}
+		if overshoots > 0 {
+			run.Inconclusive(fmt.Sprintf("step %s fault %s: %d overshoot(s) that could not be re-examined because of scheduler lateness", p.Step, p.Fault, overshoots))
+			return
 		}
 		run.Inconclusive(fmt.Sprintf("step %s fault %s: scheduler lateness above 100 ms in three runs", p.Step, p.Fault))
 	case "mem":
@@ -148,7 +171,7 @@ func c13Match(step string, b *refbmc.BMC, getCount *int) bool {
 	return false
 }
 
-func c13UDP(run *ev.Run, p c13P, cs ev.Case) string {
+func c13UDP(run *ev.Run, p c13P, cs ev.Case) (string, func()) {
 	r := rng(p.Seed, "c13"+p.Step+p.Fault)
 	cfg := defaultCfg(r)
 	b := refbmc.New(cfg)
@@ -159,13 +182,13 @@ func c13UDP(run *ev.Run, p c13P, cs ev.Case) string {
 		refbmc.Fixed(6, 0x01, 0, []byte{0x20, 0x81, 0x03, 0x15, 0x02, 0xbf, 0x57, 0x01, 0x00, 0x34, 0x12}), refbmc.Fixed(6, 0x3c, 0, nil))
 	srv, err := udpbmc.Listen(b)
 	if err != nil {
-		return "inconclusive"
+		return "inconclusive", nil
 	}
 	defer srv.Close()
 	timeout := time.Duration(p.Timeout) * time.Millisecond
 	st, err := bmc.DialV2(srv.Addr(), bmc.WithTimeout(timeout))
 	if err != nil {
-		return "inconclusive"
+		return "inconclusive", nil
 	}
 	defer st.Close()
 	faultOn := false
@@ -252,7 +275,7 @@ func c13UDP(run *ev.Run, p c13P, cs ev.Case) string {
 		scancel()
 		if err != nil {
 			run.Violation("C13:setup", fmt.Sprintf("fault-free session setup failed: %v", err), cs, nil)
-			return "violated"
+			return "violated", nil
 		}
 	}
 	if p.Step == "close2" {
@@ -305,7 +328,7 @@ func c13UDP(run *ev.Run, p c13P, cs ev.Case) string {
 	case <-time.After(watchdog):
 		run.Eval(1)
 		run.Violation("C13:never-returned:"+p.Step, fmt.Sprintf("step %s fault %s timeout %dms deadline %dms: call still blocked %v after its deadline", p.Step, p.Fault, p.Timeout, p.Deadline, time.Since(deadline)), cs, nil)
-		return "violated"
+		return "violated", nil
 	}
 	late := <-canary
 	if p.Deadline <= 0 {
@@ -319,16 +342,16 @@ func c13UDP(run *ev.Run, p c13P, cs ev.Case) string {
 	if pv != nil {
 		run.Eval(1)
 		run.Violation("C13:panic:"+panicSite(stk), fmt.Sprintf("%s: %v\n%s", desc, pv, trimStack(stk)), cs, nil)
-		return "violated"
+		return "violated", nil
 	}
 	if late > 100*time.Millisecond {
-		return "inconclusive"
+		return "inconclusive", nil
 	}
 	run.Eval(1)
 	run.Event("datagrams-received-by-bmc", int(srv.Received.Load()))
 	if p.Step == "wrongpw" && callErr == nil {
 		run.Violation("C13:success-without-valid-response:wrongpw", fmt.Sprintf("%s: a session was returned although the password is wrong", desc), cs, nil)
-		return "violated"
+		return "violated", nil
 	}
 	if faultOn || p.Deadline <= 0 || p.Step == "wrongpw" {
 		run.Nontrivial(fmt.Sprintf("%s|%s|%d:%d", p.Step, p.Fault, p.Timeout, p.Deadline))
@@ -340,21 +363,21 @@ func c13UDP(run *ev.Run, p c13P, cs ev.Case) string {
 		if p.Deadline <= 0 {
 			key = "C13:expired-context-not-prompt:" + p.Step
 		}
-		run.Violation(key, fmt.Sprintf("%s: returned %v after the deadline (allowance 250ms; canary lateness %v; err=%v)", desc, overshoot, late, callErr), cs, nil)
-		return "violated"
+		msg := fmt.Sprintf("%s: returned %v after the deadline in three runs out of three (allowance 250ms; canary lateness %v; err=%v)", desc, overshoot, late, callErr)
+		return "overshoot", func() { run.Violation(key, msg, cs, nil) }
 	}
 	if callErr == nil && sdrCount >= 0 && sdrCount != 3 {
 		run.Violation("C13:success-without-valid-response:"+p.Step, fmt.Sprintf("%s: retrieval reported success with %d of the 3 records although a reply was lost on the way", desc, sdrCount), cs, nil)
-		return "violated"
+		return "violated", nil
 	}
 	if callErr == nil && (p.Deadline <= 0 || (faultOn && p.Fault != "late" && p.Fault != "drop-once" && p.Fault != "repo-modified")) {
 		run.Violation("C13:success-without-valid-response:"+p.Step, fmt.Sprintf("%s: call reported success although no valid response could have been obtained", desc), cs, nil)
-		return "violated"
+		return "violated", nil
 	}
 	run.Max("overshoot_ms", float64(overshoot)/1e6)
 	run.Max("canary_lateness_ms", float64(late)/1e6)
 	run.Sample(p.Step+":"+p.Fault, map[string]any{"step": p.Step, "fault": p.Fault, "timeout_ms": p.Timeout, "deadline_ms": p.Deadline, "overshoot_ms": float64(overshoot) / 1e6, "canary_late_ms": float64(late) / 1e6, "err": errStr(callErr)})
-	return "held"
+	return "held", nil
 }
 
 // c13Mem is the load-independent half: attempt contexts observed at the transport.
